@@ -69,7 +69,13 @@ OtherSpelling(p, w) ==
                               fields |-> <<[name |-> "id", value |-> [i |-> 34]], [name |-> "device", value |-> [s |-> "ecu"]]>>, signals |-> <<>>]>>,
      services |-> <<>>, devices |-> <<>>]
 SpellingCases == { OtherSpelling(p, w) : p \in {"CAN", "Can", "canfd"}, w \in {8, 64} }
-FitCases == SizeCases \cup VarCases \cup ArrayCases \cup OptionCases \cup EnumOrderCases \cup SpellingCases
+(* the documented `bitstart` signal option (ignored by the layout today): whatever it does to positions, an over-size binding stays refused *)
+Bs(n, k) == [name |-> n, fields |-> <<[name |-> "bitstart", value |-> [i |-> k]]>>]
+BitstartCases ==
+    { MkFS(<<Fdf("a", 0, U(32)), Fdf("b", 1, U(32)), Fdf("c", 2, U(8))>>, sigs) :
+        sigs \in { <<Bs("a", 40), Bs("b", 0)>>, <<Bs("c", 0)>>, <<Bs("a", 8), Bs("b", 40), Bs("c", 0)>>, <<Bs("b", 64)>> } }
+    \cup { MkFS(<<Fdf("a", 0, U(32)), Fdf("b", 1, U(24))>>, <<Bs("a", 24), Bs("b", 0)>>) }          \* 56 bits: fits
+FitCases == BitstartCases \cup SizeCases \cup VarCases \cup ArrayCases \cup OptionCases \cup EnumOrderCases \cup SpellingCases
 
 VARIABLES stage, S
 vars == <<stage, S>>
